@@ -162,6 +162,7 @@ impl Sched {
         let waker = Waker::from(t.waker.clone());
         let mut cx = Context::from_waker(&waker);
         let mut fut = t.fut.take().expect("future present");
+        super::spin_reset();
         let r = panics::catch(|| fut.as_mut().poll(&mut cx));
         let t = &mut self.tasks[i];
         match r {
